@@ -457,6 +457,17 @@ theorem multAssign_spec (A : Mat R) (x : Nat → R) (ret : Vec R) (i : Nat) :
   · have h := outer_fixed A.cols A.rows (fun o n => A.e n o * x n) true ret i
     simpa [multAssignT, kernelSem, Gen.sig_multAssignTransposed, bound, sel, applyUpd, rhs] using h
 
+-- non-vacuity of the hypotheses of the mixed products: a FieldMatrix times the view of a view of a diagonal matrix, a transposed
+-- view of a 3x2 matrix as LEFT factor, A * transposedView(diagonal), all over Int with conj = id
+example := mulFmOther_spec (R := Int) id rfl ⟨2, 2, fun i j => (i : Int) + j⟩
+  (.transposed (.transposed (.diag 2 fun i => (i : Int) + 1))) (by decide) rfl 0 1 (by decide)
+example := mulOtherFm_spec (R := Int) id rfl (.transposed (.full ⟨3, 2, fun i j => (i : Int) + 2 * j⟩))
+  ⟨3, 2, fun i j => (i : Int) - j⟩ (by decide) 1 0 (by decide)
+example := mulTransposedView_spec (R := Int) id rfl ⟨2, 3, fun i j => (i : Int) + j⟩ (.diag 3 fun i => (i : Int) + 1)
+  Gen.twMulDynamic (Or.inl rfl) (by decide) rfl 1 2 (by decide)
+example : (List.range 2).map (fun i => (List.range 2).map ((mulOtherFm (fun z : Int => z) Gen.otherMulFm
+    (.transposed (.full ⟨3, 2, fun i j => 2*i+j+1⟩)) ⟨3, 2, fun i j => if i = j then 1 else 0⟩).e i)) = [[1, 3], [2, 4]] := by decide
+
 -- non-vacuity: [[1,2],[3,4]] * [[0,1],[1,0]] = [[2,1],[4,3]] over Int; leftmultiply / rightmultiply on a non-square matrix
 example : (List.range 2).map (fun i => (List.range 2).map ((matmul (⟨2, 2, fun i j => 2*i+j+1⟩ : Mat Int)
     ⟨2, 2, fun i j => if i = j then 0 else 1⟩).e i)) = [[2, 1], [4, 3]] := by decide
@@ -526,6 +537,11 @@ theorem assign_spec (r : Rep R) (i j : Nat) (hi : i < r.rows) :
   | full m => exact ⟨rfl, rfl, rfl⟩
   | scalar a => exact ⟨rfl, rfl, rfl⟩
   | transposed r => exact ⟨rfl, toFull_rows _, toFull_cols _⟩
+
+-- non-vacuity: conversion of diag(5,6,7) (the loop really writes the diagonal into a zeroed 3x3 matrix)
+example : (List.range 3).map (fun i => (List.range 3).map ((assignFrom (.diag 3 fun i => (i : Int) + 5)).e i))
+    = [[5, 0, 0], [0, 6, 0], [0, 0, 7]] := by decide
+example := assign_spec (R := Int) (.diag 3 fun i => (i : Int) + 5) 2 2 (by decide)
 
 -- non-vacuity: the transposed of the 2x3 matrix [[1,2,3],[4,5,6]]
 example : (List.range 3).map (fun i => (List.range 2).map ((transposed (⟨2, 3, fun i j => 3*i+j+1⟩ : Mat Int)).e i))
